@@ -216,8 +216,23 @@ def _guard_normal_form(stmts):
     return out
 
 
+def _fold_alias_prefix(stmts):
+    """[`a = <pure ref>`]* + `return <expr>`  ->  [`return <expr with the aliases substituted>`]"""
+    if len(stmts) < 2 or not isinstance(stmts[-1], ast.Return) or stmts[-1].value is None:
+        return stmts
+    mapping = {}
+    for st in stmts[:-1]:
+        if not (isinstance(st, ast.Assign) and len(st.targets) == 1 and isinstance(st.targets[0], ast.Name) and _pure_ref(st.value) and st.targets[0].id not in mapping):
+            return stmts
+        mapping[st.targets[0].id] = _Renamer(mapping).visit(copy.deepcopy(st.value))
+    stored_later = {n.id for n in ast.walk(stmts[-1]) if isinstance(n, ast.Name) and not isinstance(n.ctx, ast.Load)}
+    if stored_later & set(mapping):
+        return stmts
+    return [ast.copy_location(ast.Return(value=_Renamer(mapping).visit(copy.deepcopy(stmts[-1].value))), stmts[-1])]
+
+
 def _helper_body(fn):
-    return _guard_normal_form(copy.deepcopy(_body_wo_doc(fn)))
+    return _fold_alias_prefix(_guard_normal_form(copy.deepcopy(_body_wo_doc(fn))))
 
 
 def _PARENT_OF(fn):
@@ -242,7 +257,7 @@ def _classify(fn):
             return None
         if isinstance(n, ast.Call) and ((isinstance(n.func, ast.Attribute) and n.func.attr == fn.name) or (isinstance(n.func, ast.Name) and n.func.id == fn.name)):
             return None   # (possibly) recursive
-    body = _guard_normal_form(copy.deepcopy(_body_wo_doc(fn)))
+    body = _fold_alias_prefix(_guard_normal_form(copy.deepcopy(_body_wo_doc(fn))))
     if len(body) > 40 or not body:
         return None
     if len(body) == 1 and isinstance(body[0], ast.Return) and body[0].value is not None:
